@@ -33,6 +33,7 @@ Sweep: C10.1 the delete pass and the create pass of a publication are never cut 
 Fifth round: C10.2 the start-up delete pass runs after the start-up cycle (shared with C09.1); C10.3 masterapi.delete_server removes the placement records of the server on every path.
 Sixth round: C10.3 every read of the store on the restore path sits in a try block that handles ObjectNotFoundError (no look-before-you-read), and delete_server tells the master only after its deletions.
 Seventh round: C10.1 instances leave the cell only through remove_app of the master (which deletes the record); C10.3 a kept placement is revalidated against label, traits and state for every instance, blacklisted or not (shared with C03.1).
+Eighth round: C10.3 a node that comes back is reloaded, not loaded as new (shared presence clause of C08.5), and reload_server drops a server for good only without a record (shared with C09.4).
 Does NOT decide that a restarted master completes start-up and republishes a
 placement equal to its model (behaviour of a run; see C09/C11).
 """
